@@ -166,8 +166,9 @@ def band(bits, lo=2048, hi=3072):
 def size_notes(notes):
     return sorted((l, t) for l, t in notes if 'modulus' in t or 'elliptic curves that are suspected' in t)
 DEBUGS = [0]
+KEXS = [['curve25519-sha256']]
 def audit(keys, hostkeys, extra):
-    srv = F.Server(['curve25519-sha256'], keys, ['aes128-ctr'], ['hmac-sha2-256'], hostkeys=hostkeys)
+    srv = F.Server(KEXS[0], keys, ['aes128-ctr'], ['hmac-sha2-256'], hostkeys=hostkeys, moduli=[2048, 3072, 4096, 8192])
     if DEBUGS[0]:
         srv.debug_before = {'kexdh_reply': DEBUGS[0]}
     st, out = F.run_main(['-n', '--skip-rate-test'] + extra + ['s.test'], F.FakeNet({'s.test': srv}))
@@ -183,6 +184,17 @@ def one(case):
         for f in r:
             f['input']['debug messages before the reply'] = case[1]
             f['input']['class'] = 'debug-prefixed:' + f['input']['class']
+        return r
+    if case[0] == 'kex':
+        # the same case on a server whose first probe-able key exchange is another method (each has its own KEXDH_INIT / ECDH_INIT / GEX form)
+        KEXS[0] = list(case[1])
+        try:
+            r = one(case[2])
+        finally:
+            KEXS[0] = ['curve25519-sha256']
+        for f in r:
+            f['input']['key exchange methods offered'] = list(case[1])
+            f['input']['class'] = 'kex-method:' + f['input']['class']
         return r
     kind = case[0]
     fails = []
@@ -212,8 +224,8 @@ def one(case):
         if fins != want_f:
             fail(fins, want_f, 'fingerprints')
         # probes: RSA family probed once
-        probes = [r[2] for r in srv.requests if r[1] == 'kexdh_init']
-        if len([p for p in probes if p in RSA]) != 1:
+        probes = [r[2] for r in srv.requests if r[1] in ('kexdh_init', 'gex_init')]
+        if len([p for p in probes if p in RSA]) != 1 and not any('group-exchange' in k for k in KEXS[0]):      # (the modulus probes of the GEX test send GEX_INITs of their own)
             fail(probes, 'exactly one probe for the RSA family', 'rsa-family-fanout')
         st2, out2, _ = audit(list(names) + ['ssh-ed25519'], dict(hk, **{'ssh-ed25519': F.ed25519_blob()}), ['-j'])
         try:
@@ -338,6 +350,12 @@ for nd in (1, 2, 5):
     work.append(('debug', nd, ('rsa', 4096, ('rsa-sha2-256',))))
     work.append(('debug', nd, ('cert', 'rsa', 2048, 'rsa', 1024, 'ssh-rsa-cert-v01@openssh.com')))
     work.append(('debug', nd, ('fixed', 'ssh-ed25519')))
+PROBE_KEXS = ['diffie-hellman-group1-sha1', 'diffie-hellman-group14-sha1', 'diffie-hellman-group14-sha256', 'curve25519-sha256@libssh.org', 'diffie-hellman-group16-sha512',
+              'diffie-hellman-group18-sha512', 'diffie-hellman-group-exchange-sha1', 'diffie-hellman-group-exchange-sha256', 'ecdh-sha2-nistp256', 'ecdh-sha2-nistp384', 'ecdh-sha2-nistp521']
+for i, ka in enumerate(PROBE_KEXS):
+    work.append(('kex', [ka], ('rsa', (2048, 3072, 4096)[i %% 3], ('rsa-sha2-512',))))
+    work.append(('kex', ['sntrup761x25519-sha512@openssh.com', ka, 'curve25519-sha256'], ('cert', 'rsa', 3072, 'rsa', 4096, RSACERT[i %% 3])))
+work.append(('kex', ['diffie-hellman-group14-sha256'], ('fixed', 'ssh-ed25519')))
 for names in (('ssh-rsa-cert-v01@openssh.com', 'ssh-ed25519'), ('ssh-ed25519-cert-v01@openssh.com', 'ssh-ed25519'), ('ssh-rsa-cert-v01@openssh.com', 'rsa-sha2-512', 'ssh-ed25519'),
               ('ssh-ed25519', 'ssh-rsa', 'ssh-rsa-cert-v01@openssh.com', 'ssh-ed25519-cert-v01@openssh.com')):
     work.append(('mixed', names))
